@@ -255,6 +255,16 @@ Fixpoint deps_eqb (a b : list deposit) : bool :=
   | _, _ => false
   end.
 
+(* the same deposits, each as often, in ANY order (the property says which deposits a retry re-emits,
+   not in which order they stand in the batch) *)
+Fixpoint count_dep (d : deposit) (l : list deposit) : nat :=
+  match l with
+  | [] => O
+  | x :: r => ((if dep_eqb d x then 1 else 0) + count_dep d r)%nat
+  end.
+Definition deps_perm_eqb (a b : list deposit) : bool :=
+  forallb (fun d => Nat.eqb (count_dep d a) (count_dep d b)) (a ++ b).
+
 (* exactly the selected deposits that are not recorded executed and whose store calls all succeeded *)
 Definition expected_retry (p : path) (src res dest : N) (ds : list deposit) (pre : kv) (failed : list key)
   : list deposit :=
@@ -270,7 +280,8 @@ Definition judge_step (univ : list key) (pre : kv) (o : op) (ob : obs) : bool :=
       && match o, ou with
          | _, OStuck => false
          | Retry p src res dest ds, ORetry em =>
-             deps_eqb em (regroup p (expected_retry p src res dest ds pre failed))
+             (* those and only those, each once; the order inside the batch is not constrained *)
+             deps_perm_eqb em (regroup p (expected_retry p src res dest ds pre failed))
              (* every re-emitted deposit is left in a status from which it will be executed *)
              && forallb (fun d => startable (get post (dkey src d))) em
          | Retry _ _ _ _ _, _ => false
